@@ -17,6 +17,15 @@ def _prop(w, default):
     return default if (default in w.props or not w.props) else sorted(w.props)[0]
 
 
+def operand_violation(w, detail):
+    """The object handed to a writer changed: C19 says so itself; otherwise it is C15's business."""
+    if "C19" in w.props or not w.props:
+        raise Violation("C19", "writer_unchanged", detail)
+    if "C15" in w.props:
+        raise Violation("C15", "operand_changed", detail)
+    w.count("c15:operand_change_seen_by_other_check")
+
+
 def known_vars(fm):
     return [k for k, v in fm.vars.items() if not v["unknown"] and k not in fm.dims]
 
@@ -429,7 +438,7 @@ def x_ds_write(w, s):
             raise Violation("C19", "write_raises", "Dataset.write_nc(%s, mode=%r) raises %s: %s" % (path, mode, type(e).__name__, str(e)[:200]))
         return "raise:" + type(e).__name__
     if V.snap_dataset(ds) != before:
-        raise Violation(prop if prop == "C19" else "C15", "writer_unchanged", "Dataset.write_nc changed the dataset: %s" % V.describe_snap_diff(before, V.snap_dataset(ds)))
+        operand_violation(w, "Dataset.write_nc changed the dataset: %s" % V.describe_snap_diff(before, V.snap_dataset(ds)))
     if mode == "w":
         fm = w.files[path] = RefFile(w.cfg["format"])
     for d in ds.dims:  # write_nc first appends every axis of the dataset
@@ -480,7 +489,7 @@ def x_arr_write(w, s):
             raise Violation("C19", "write_raises", "DimArray.write_nc(%s, %r, mode=%r) raises %s: %s" % (path, name, mode, type(e).__name__, str(e)[:200]))
         return "raise:" + type(e).__name__
     if V.snap(a) != before:
-        raise Violation("C19" if "C19" in w.props else "C15", "writer_unchanged", "DimArray.write_nc changed the array: %s" % V.describe_snap_diff(before, V.snap(a)))
+        operand_violation(w, "DimArray.write_nc changed the array: %s" % V.describe_snap_diff(before, V.snap(a)))
     if not appending:
         fm = w.files[path] = RefFile(w.cfg["format"])
     fm.add_array(name, a)
@@ -523,7 +532,7 @@ def x_reject(w, s):
         raised = e
     w.count("fault:rejected_file_operation_" + kind)
     if V.snap(a) != before:
-        raise Violation("C19" if "C19" in w.props else "C15", "writer_unchanged", "rejected %s changed the array" % kind)
+        operand_violation(w, "rejected %s changed the array" % kind)
     if "C19" in w.props:
         if raised is None:
             raise Violation("C19", "reject_raises", "file operation that must be refused (%s on %s) succeeded" % (kind, path))
@@ -602,7 +611,7 @@ def x_h_set(w, s):
             raise Violation("C19", "write_raises", "open_nc(...)[%r] = array raises %s: %s" % (name, type(e).__name__, str(e)[:200]))
         return "raise:" + type(e).__name__
     if V.snap(a) != before:
-        raise Violation("C19" if "C19" in w.props else "C15", "writer_unchanged", "handle[name] = array changed the array")
+        operand_violation(w, "handle[name] = array changed the array")
     fm.add_array(name, a)
     w.n_writes += 1
     w.count("c19:handle_set")
@@ -718,7 +727,7 @@ def x_json_rt(w, s):
             raise Violation("C19", "json_rt", "from_json(to_json(a)) raises %s: %s" % (type(e).__name__, str(e)[:200]))
         return "raise:" + type(e).__name__
     if V.snap(a) != before:
-        raise Violation("C19" if "C19" in w.props else "C15", "writer_unchanged", "to_json changed the array")
+        operand_violation(w, "to_json changed the array")
     if "C19" in w.props:
         d = V.diff_arrays(a, b, rtol=0, attrs=False, dtype="none", kind=False)
         if d:
